@@ -70,7 +70,7 @@ func checkC07(ctx *Ctx, r *Report, tier string) {
 		}
 		ev := newEval(ctx)
 		ev.evalRoot(fn)
-		vi := fn.Params[1].Name()
+		vi := paramName(fn, 1)
 		want := "{"
 		for i, ax := range []string{"X", "Y", "Z"}[:c.dim] {
 			if i > 0 {
